@@ -413,6 +413,7 @@ class Lowerer:
     # -- driver --------------------------------------------------------------
     def lower_body(self, body, init=''):
         s = body
+        if self.spec.get('py_pre'): s = self.spec['py_pre'](s, self)     # unit-local mechanical rule (callable(text, lowerer) -> text)
         s = self.subst(s, 'pre_subst')
         s = self.casts(s)
         s = self.simple(s)
@@ -437,6 +438,7 @@ class Lowerer:
         for ordinal in sorted(cuts, reverse=True):
             s = self.cut_loop(s, ordinal, cuts[ordinal])
         s = self.subst(s, 'post_subst')
+        if self.spec.get('py_post'): s = self.spec['py_post'](s, self)
         if getattr(self, '_refs', None):
             k = s.rstrip().rfind('}')
             s = s[:k] + ''.join('#undef %s\n' % r for r in self._refs) + '}'
